@@ -20,7 +20,9 @@ YIELD_WRAPS = ["plain", "if", "for", "while", "with", "asyncwith", "asyncfor", "
                # several yields: the recorded yield line is the FIRST in source order, nested or not
                "nested_then_top", "top_then_nested", "two_nested",
                # yields in expression position (visited since the repair) and in forms that stay out of reach
-               "call_arg", "augassign", "annassign", "cond_expr", "in_match"]
+               "call_arg", "augassign", "annassign", "cond_expr", "in_match",
+               # a try statement yielding in several of its blocks: the first in SOURCE order counts
+               "except_and_else", "else_and_finally", "two_handlers"]
 
 
 class Src:
@@ -83,8 +85,8 @@ def pick_params(rng, src, allow_self=False, method=False):
     return fixed
 
 
-def yield_body(rng, src, indent):
-    kind = rng.choice(YIELD_WRAPS)
+def yield_body(rng, src, indent, kind=None):
+    kind = kind or rng.choice(YIELD_WRAPS)
     src.features.add("yield:" + kind)
     i = indent
     if kind == "plain":
@@ -135,6 +137,14 @@ def yield_body(rng, src, indent):
         return [f"{i}return (yield 16) if True else None"]
     if kind == "in_match":
         return [f"{i}match 1:", f"{i}    case _:", f"{i}        yield 17"]
+    if kind == "except_and_else":
+        return [f"{i}try:", f"{i}    pass", f"{i}except Exception:", f"{i}    yield 18", f"{i}else:", f"{i}    yield 19"]
+    if kind == "else_and_finally":
+        return [f"{i}try:", f"{i}    pass", f"{i}except Exception:", f"{i}    pass", f"{i}else:", f"{i}    yield 20",
+                f"{i}finally:", f"{i}    yield 21"]
+    if kind == "two_handlers":
+        return [f"{i}try:", f"{i}    pass", f"{i}except KeyError:", f"{i}    pass", f"{i}except Exception:", f"{i}    yield 22",
+                f"{i}finally:", f"{i}    yield 23"]
     if kind == "nested_then_top":
         return [f"{i}if not True:", f"{i}    yield None", f"{i}    return", f"{i}yield 8"]
     if kind == "top_then_nested":
@@ -358,6 +368,24 @@ TYPING_DECOS = ["@pytest.fixture\n", "@pytest.mark.skip\n", '@pytest.fixture(sco
 TYPING_DEFS = ["def test_a(", "def test_a(x, ", "def test_a(x):", "async def fx(", "def helper(", "def test_a", "def test_a(\n    x,\n",
                "def test_a(x) -> None:", "def test_a():\n    ", "def fx(alpha, beta", "def test_é(", "def test_a(x\n):\n    y = ", "class TestK:\n    def test_m(self, ",
                "def test_a(x):\n    pass\n\ndef test_b(", "pytestmark = pytest.mark.usefixtures(", "pytestmark = [pytest.mark.usefixtures(\"a\"), pytest.mark.usefixtures("]
+
+
+def yield_programs():
+    """one program per yield form, fixed (no random choice): a fixture whose body is exactly that form"""
+    out = []
+    for kind in YIELD_WRAPS:
+        src = Src()
+        src.add("import pytest")
+        src.add("")
+        src.add("@pytest.fixture")
+        src.add("def fx_%s(alpha):" % kind)
+        for b in yield_body(None, src, "    ", kind=kind):
+            src.add(b)
+        src.add("")
+        src.add("def test_%s(fx_%s):" % (kind, kind))
+        src.add("    pass")
+        out.append((kind, src))
+    return out
 
 
 def typing_form(rng):
